@@ -14,11 +14,26 @@
   it is upper triangular, and `Represents s A` says `Q · get_R() = A` on rows `< n`.  So the content
   of "R stays upper triangular" is that no operation ever relies on a below-diagonal entry.
 
-  Oracles: `giv` = `Eigen::JacobiRotation::makeGivens` with the contract `GivensOK`; `std::sqrt` with
-  `SqrtLaw` (only for orthonormality).  Hypothesis forced on `add_column`: the `norm_q` it divides by
-  is nonzero (`hnz`).  At the excluded point (a column in the span of the window, e.g. the zero
-  vector or a repeated column) the real code divides by zero and stores NaN — recorded as a known
-  finding by the monitor of `checks/c10.py`.
+  Oracles: `std::sqrt` with `SqrtLaw` (`sqrt a · sqrt a = a` for `a ≥ 0`).  `giv` =
+  `Eigen::JacobiRotation::makeGivens`: the theorems are stated for any `giv` meeting the contract
+  `GivensOK`, and `givensEigen_meets_contract` proves the contract for `givensEigen`, the line-by-line
+  port the driver executes (bit-exact against Eigen on every run) — so every `giv`-theorem holds for the
+  executed function (`*_executed` corollaries, and all examples use `givensEigen`).
+  Hypothesis forced on `add_column`: the `norm_q` it divides by is nonzero (`hnz`).  In exact
+  arithmetic that is *exactly* "the new column is not in the span of the window"
+  (`addColumn_norm_ne_zero_of_independent`; `ReachI` / `AReachI` are the histories described by their
+  inputs only, `reachI_reach` / `areachI_areach` discharge `hnz`, `Orth` and nonzero pivots for them).
+  At the excluded point (a column in the span of the window, e.g. the zero vector, a repeated column, the
+  (n+1)-th column when m > n) the real code divides by zero and stores NaN — recorded as a known finding
+  by the monitor of `checks/c10.py`.
+
+  `solve_col` and the pivot threshold (`history_solve_least_squares`, for EVERY history and threshold):
+  components whose pivot is below the threshold are 0, the other rows of `R x = Qᵀ b` hold, this
+  determines `x` uniquely, and `x` is a least-squares minimiser for the *deflated* window
+  `A' = A − Σ_{r skipped} q_r·(row r of R)`.  It is NOT in general the minimiser of `‖A z − b‖` over
+  `{z_r = 0, r skipped}` (`truncated_solve_is_not_the_constrained_minimiser`).  Without skipped pivots
+  `A' = A`: the unique least-squares minimiser (`history_solve_least_squares_no_truncation`; no pivot
+  hypothesis at all for `tol ≤ 0` on `ReachI` histories: `history_solve_least_squares_independent`).
 
   Partial (see the comment at `history_orthonormal_partial`): the benefit of the *re*orthogonalisation loop
   and `min_eig` / `max_eig` are modelled and carried through every proof, but nothing is proved about
@@ -97,6 +112,44 @@ theorem removeColumn_orthonormal (giv : α → α → α × α × α) (hg : Give
     (h : RingInv s) (hK : 0 < s.qIdx) (hO : Orth s) : Orth (s.removeColumn giv) :=
   removeColumn_orth giv hg s h hK hO
 
+/-- **The executed Givens function meets the contract**: `givensEigen` — the line-by-line port of Eigen's
+    real-scalar `JacobiRotation::makeGivens` that `Driver/C10.lean` runs (special cases `q = 0`, `p = 0`;
+    branches `|p| > |q|` / else with `u = ±√(1 + t²)` and Eigen's sign conventions) — satisfies `GivensOK`
+    over every ordered field with a lawful square root. -/
+theorem givensEigen_meets_contract (hs : SqrtLaw α) : GivensOK (givensEigen : α → α → α × α × α) :=
+  givensEigen_ok hs
+
+/-- `remove_column` as executed (with `givensEigen`). -/
+theorem removeColumn_QR_executed (hs : SqrtLaw α) (s : LMQR α) (h : RingInv s)
+    (hK : 0 < s.qIdx) (A : ℕ → ℕ → α) (hA : Represents s A) :
+    RingInv (s.removeColumn givensEigen) ∧ (s.removeColumn givensEigen).qIdx = s.qIdx - 1 ∧
+    (s.removeColumn givensEigen).rStart = (s.rStart + 1) % s.m ∧
+    Represents (s.removeColumn givensEigen) (fun k => A (k + 1)) :=
+  removeColumn_QR givensEigen (givensEigen_ok hs) s h hK A hA
+
+theorem removeColumn_orthonormal_executed (hs : SqrtLaw α) (s : LMQR α) (h : RingInv s)
+    (hK : 0 < s.qIdx) (hO : Orth s) : Orth (s.removeColumn givensEigen) :=
+  removeColumn_orth givensEigen (givensEigen_ok hs) s h hK hO
+
+/-- `remove_column` keeps the pivots nonzero: the new diagonal entry is `r = ±√(p² + q²)` with `q` an old
+    pivot. -/
+theorem removeColumn_pivots_nonzero (giv : α → α → α × α × α) (hg : GivensOK giv) (s : LMQR α)
+    (h : RingInv s) (hK : 0 < s.qIdx) (hP : PivNZ s) : PivNZ (s.removeColumn giv) :=
+  removeColumn_pivnz giv hg s h hK hP
+
+/-- **`norm_q ≠ 0` ⇔ independence** (the direction the theorems need): on a state with orthonormal `Q`
+    and nonzero pivots representing `A`, the `norm_q` that `add_column(v)` divides by is nonzero whenever
+    `v` is not a linear combination of the columns of `A` (exact arithmetic, lawful `sqrt`). -/
+theorem addColumn_norm_ne_zero_of_independent (hs : SqrtLaw α) (fuel : ℕ) (s : LMQR α) (h : RingInv s)
+    (A : ℕ → ℕ → α) (hA : Represents s A) (hO : Orth s) (hP : PivNZ s) (v : ℕ → α)
+    (hind : ¬ ∃ z : ℕ → α, ∀ j < s.n, v j = ∑ k ∈ range s.qIdx, A k j * z k) :
+    (addCore fuel s v).2.2.1 ≠ 0 := addCore_norm_ne_zero hs fuel s h A hA hO hP v hind
+
+/-- … and a state with orthonormal `Q` and nonzero pivots represents a linearly independent window. -/
+theorem window_linearly_independent (s : LMQR α) (A : ℕ → ℕ → α) (hA : Represents s A) (hO : Orth s)
+    (hP : PivNZ s) (z : ℕ → α) (hz : ∀ j < s.n, ∑ k ∈ range s.qIdx, A k j * z k = 0) :
+    ∀ k < s.qIdx, z k = 0 := window_independent s A hA hO hP z hz
+
 /-- `scale_R(c)`: every entry of `get_R()` is multiplied once, so the window is scaled by `c`. -/
 theorem scaleR_QR (s : LMQR α) (h : RingInv s) (c : α) (A : ℕ → ℕ → α) (hA : Represents s A) :
     RingInv (s.scaleR c) ∧ (∀ i, ∀ k < s.qIdx, (s.scaleR c).getR i k = s.getR i k * c) ∧
@@ -134,6 +187,38 @@ theorem ls_unique (n K : ℕ) (Q Ru A : ℕ → ℕ → α)
           ∑ j ∈ range n, (∑ k ∈ range K, A k j * x k - b j) ^ 2) :
     ∀ k < K, z k = x k :=
   Alpaqa.C10.ls_unique n K Q Ru A hA hO hd hU b x hx z hz
+
+/-- **`solve_col` for arbitrary pivots** (orthonormal `Q`; every pivot that passes the threshold nonzero —
+    automatic for `tol > 0`).  `x = solve_col(b, ·, tol)` satisfies
+    1. `x r = 0` for every pivot below the threshold;
+    2. `q_rᵀ (A x − b) = 0` for every other pivot (row `r` of `R x = Qᵀ b`);
+    3. `x` is a least-squares minimiser of `‖A' z − b‖` for the deflated window
+       `A' = deflated s tol = A − Σ_{r skipped} q_r·(row r of R)` (`deflated_window_eq`);
+    4. 1 and 2 determine `x` on the `q_idx` entries `solve_col` writes. -/
+theorem solveCol_any_pivots (s : LMQR α) (h : RingInv s) (A : ℕ → ℕ → α) (hA : Represents s A)
+    (hO : Orth s) (b x0 : ℕ → α) (tol : α)
+    (hnz : ∀ r < s.qIdx, ¬ |s.getR r r| < tol → s.getR r r ≠ 0) :
+    (∀ r < s.qIdx, |s.getR r r| < tol → s.solveCol b x0 tol r = 0) ∧
+    (∀ r < s.qIdx, ¬ |s.getR r r| < tol →
+      ∑ j ∈ range s.n, s.Q.get j r * (∑ k ∈ range s.qIdx, A k j * s.solveCol b x0 tol k - b j) = 0) ∧
+    (∀ z : ℕ → α,
+      ∑ j ∈ range s.n, (∑ k ∈ range s.qIdx, deflated s tol k j * s.solveCol b x0 tol k - b j) ^ 2 ≤
+      ∑ j ∈ range s.n, (∑ k ∈ range s.qIdx, deflated s tol k j * z k - b j) ^ 2) ∧
+    ∀ z : ℕ → α, (∀ r < s.qIdx, |s.getR r r| < tol → z r = 0) →
+      (∀ r < s.qIdx, ¬ |s.getR r r| < tol →
+        ∑ j ∈ range s.n, s.Q.get j r * (∑ k ∈ range s.qIdx, A k j * z k - b j) = 0) →
+      ∀ k < s.qIdx, z k = s.solveCol b x0 tol k := by
+  obtain ⟨t1, t2, t3⟩ := solveCol_truncated s h A hA hO b x0 tol hnz
+  exact ⟨t1, t2, t3, fun z hz0 hz1 => solveCol_truncated_unique s h A hA hO b x0 tol hnz z hz0 hz1⟩
+
+/-- the deflated window, entry by entry: `A` minus the skipped `q`-directions; it is `A` when nothing is
+    skipped -/
+theorem deflated_window_eq (s : LMQR α) (tol : α) (A : ℕ → ℕ → α) (hA : Represents s A) {k j : ℕ}
+    (hk : k < s.qIdx) (hj : j < s.n) :
+    deflated s tol k j =
+      A k j - ∑ i ∈ range s.qIdx, (if |s.getR i i| < tol then s.Q.get j i * s.getR i k else 0) ∧
+    ((∀ r < s.qIdx, ¬ |s.getR r r| < tol) → deflated s tol k j = A k j) :=
+  ⟨deflated_eq_sub s tol A hA hk hj, fun hp => deflated_eq_of_no_trunc s tol A hA hp hk hj⟩
 
 /-! ### 3. All operation histories within capacity -/
 
@@ -200,22 +285,150 @@ theorem history_orthonormal_partial (hs : SqrtLaw α) {fuel : ℕ} {giv : α →
   | reset _ _ => exact reset_orth inf _
   | scale c _ ih => exact scaleR_orth _ c ih
 
-/-- **End to end**: after any history, `solve_col(b, x, tol)` returns a least-squares minimiser of
-    `‖A z − b‖` over the current window `A`, provided every pivot passes the threshold and is nonzero
-    (components with pivots below the threshold are set to zero: `solveCol_backsubst`). -/
+/-- `Reach` histories described by their **inputs only**: every added column is linearly independent of
+    the current window, every rescaling is by a nonzero factor (`remove_column`, `reset` unrestricted). -/
+inductive ReachI (fuel : ℕ) (giv : α → α → α × α × α) (inf : α) (n m : ℕ) :
+    LMQR α → List (ℕ → α) → Prop
+  | new : ReachI fuel giv inf n m (LMQR.new inf n m) []
+  | add {s A} (v : ℕ → α) : ReachI fuel giv inf n m s A → s.qIdx < m →
+      (¬ ∃ z : ℕ → α, ∀ j < n, v j = ∑ k ∈ range A.length, winFn A k j * z k) →
+      ReachI fuel giv inf n m (s.addColumn fuel v) (A ++ [v])
+  | remove {s A} : ReachI fuel giv inf n m s A → 0 < s.qIdx →
+      ReachI fuel giv inf n m (s.removeColumn giv) A.tail
+  | reset {s A} : ReachI fuel giv inf n m s A → ReachI fuel giv inf n m (s.reset inf) []
+  | scale {s A} (c : α) : c ≠ 0 → ReachI fuel giv inf n m s A →
+      ReachI fuel giv inf n m (s.scaleR c) (A.map fun col j => col j * c)
+
+/-- **`hnz` discharged**: a `ReachI` history is a `Reach` history (every `norm_q` is nonzero), with
+    orthonormal `Q` and nonzero pivots. -/
+theorem reachI_reach (hs : SqrtLaw α) {fuel : ℕ} {giv : α → α → α × α × α} (hg : GivensOK giv) {inf : α}
+    {n m : ℕ} (hm : 0 < m) {s : LMQR α} {A : List (ℕ → α)} (h : ReachI fuel giv inf n m s A) :
+    Reach fuel giv inf n m s A ∧ Orth s ∧ PivNZ s := by
+  induction h with
+  | new => exact ⟨Reach.new, fun a ha => by rw [(new_idx inf n m).1] at ha; omega, new_pivnz inf n m⟩
+  | @add s A v _ hK hind ih =>
+    obtain ⟨hr, hO, hP⟩ := ih
+    have hq := history_qrinv hg hm hr
+    have hnz : (addCore fuel s v).2.2.1 ≠ 0 := by
+      apply addCore_norm_ne_zero hs fuel s hq.ring _ hq.repr hO hP
+      rw [hq.hn, hq.len]; exact hind
+    have hK' : s.qIdx < s.m := by rw [hq.hm]; exact hK
+    exact ⟨Reach.add v hr hK hnz, addColumn_orth hs fuel s hq.ring hK' v hnz hO,
+      addColumn_pivnz fuel s hq.ring hK' v hnz hP⟩
+  | @remove s A _ hK ih =>
+    obtain ⟨hr, hO, hP⟩ := ih
+    have hq := history_qrinv hg hm hr
+    exact ⟨Reach.remove hr hK, removeColumn_orth giv hg s hq.ring hK hO,
+      removeColumn_pivnz giv hg s hq.ring hK hP⟩
+  | reset _ ih => exact ⟨Reach.reset ih.1, reset_orth inf _, reset_pivnz inf _⟩
+  | @scale s A c hc _ ih =>
+    obtain ⟨hr, hO, hP⟩ := ih
+    exact ⟨Reach.scale c hr, scaleR_orth _ c hO, scaleR_pivnz s (history_qrinv hg hm hr).ring hc hP⟩
+
+/-- conversely the window of a `ReachI` history is linearly independent -/
+theorem history_window_independent (hs : SqrtLaw α) {fuel : ℕ} {giv : α → α → α × α × α}
+    (hg : GivensOK giv) {inf : α} {n m : ℕ} (hm : 0 < m) {s : LMQR α} {A : List (ℕ → α)}
+    (h : ReachI fuel giv inf n m s A) (z : ℕ → α)
+    (hz : ∀ j < n, ∑ k ∈ range A.length, winFn A k j * z k = 0) : ∀ k < A.length, z k = 0 := by
+  obtain ⟨hr, hO, hP⟩ := reachI_reach hs hg hm h
+  have hq := history_qrinv hg hm hr
+  have := window_independent s (winFn A) hq.repr hO hP z (by rw [hq.hn, hq.len]; exact hz)
+  rw [hq.len] at this
+  exact this
+
+/-- **End to end, every history and every threshold**: after any history, `x = solve_col(b, ·, tol)` has
+    `x r = 0` for every pivot below the threshold ("components with pivots below the threshold set to
+    zero"), satisfies row `r` of the normal equations `q_rᵀ(A x − b) = 0` for every other pivot, is the
+    only vector doing both, and is a least-squares minimiser of `‖A' z − b‖` over the deflated window
+    `A' = A − Σ_{r skipped} q_r·(row r of R)` (`deflated_window_eq`).
+    Side condition: a pivot that passes the threshold is not exactly zero — automatic when `tol > 0`, and
+    for every `tol` on `ReachI` histories (`reachI_reach`).  [At the excluded point — `scale_R(0)` followed by
+    `solve_col(·, ·, tol ≤ 0)` — the real code divides by zero: known finding of `checks/c10.py`.]
+    The least-squares minimiser of `‖A z − b‖` itself is obtained when no pivot is skipped
+    (`history_solve_least_squares_no_truncation`); with skipped pivots `x` is in general NOT the minimiser
+    over `{z_r = 0, r skipped}` (`truncated_solve_is_not_the_constrained_minimiser`). -/
 theorem history_solve_least_squares (hs : SqrtLaw α) {fuel : ℕ} {giv : α → α → α × α × α}
     (hg : GivensOK giv) {inf : α} {n m : ℕ} (hm : 0 < m) {s : LMQR α} {A : List (ℕ → α)}
-    (h : Reach fuel giv inf n m s A) (b x0 : ℕ → α) (tol : α)
-    (hp : ∀ r < A.length, ¬ |s.getR r r| < tol ∧ s.getR r r ≠ 0) :
-    ∀ z : ℕ → α,
-      ∑ j ∈ range n, (∑ k ∈ range A.length, winFn A k j * s.solveCol b x0 tol k - b j) ^ 2 ≤
-      ∑ j ∈ range n, (∑ k ∈ range A.length, winFn A k j * z k - b j) ^ 2 := by
+    (h : Reach fuel giv inf n m s A) (b x0 : ℕ → α) (tol : α) (hpz : 0 < tol ∨ PivNZ s) :
+    (∀ r < A.length, |s.getR r r| < tol → s.solveCol b x0 tol r = 0) ∧
+    (∀ r < A.length, ¬ |s.getR r r| < tol →
+      ∑ j ∈ range n, s.Q.get j r *
+        (∑ k ∈ range A.length, winFn A k j * s.solveCol b x0 tol k - b j) = 0) ∧
+    (∀ z : ℕ → α,
+      ∑ j ∈ range n, (∑ k ∈ range A.length, deflated s tol k j * s.solveCol b x0 tol k - b j) ^ 2 ≤
+      ∑ j ∈ range n, (∑ k ∈ range A.length, deflated s tol k j * z k - b j) ^ 2) ∧
+    ∀ z : ℕ → α, (∀ r < A.length, |s.getR r r| < tol → z r = 0) →
+      (∀ r < A.length, ¬ |s.getR r r| < tol →
+        ∑ j ∈ range n, s.Q.get j r * (∑ k ∈ range A.length, winFn A k j * z k - b j) = 0) →
+      ∀ k < A.length, z k = s.solveCol b x0 tol k := by
   have hq := history_qrinv hg hm h
   have hO := history_orthonormal_partial hs hg hm h
-  intro z
-  have := solveCol_ls s hq.ring (winFn A) hq.repr hO b x0 tol (by rw [hq.len]; exact hp) z
+  have hnz : ∀ r < s.qIdx, ¬ |s.getR r r| < tol → s.getR r r ≠ 0 := by
+    intro r hr ht
+    rcases hpz with hpos | hP
+    · exact pivot_ne_zero_of_pos_tol hpos ht
+    · exact hP r hr
+  have := solveCol_any_pivots s hq.ring (winFn A) hq.repr hO b x0 tol hnz
   rw [hq.hn, hq.len] at this
   exact this
+
+/-- **No pivot below the threshold ⇒ the least-squares minimiser of `‖A z − b‖`, and the only one.**
+    (Corollary of `history_solve_least_squares`: then `A' = A`.) -/
+theorem history_solve_least_squares_no_truncation (hs : SqrtLaw α) {fuel : ℕ}
+    {giv : α → α → α × α × α} (hg : GivensOK giv) {inf : α} {n m : ℕ} (hm : 0 < m) {s : LMQR α}
+    {A : List (ℕ → α)} (h : Reach fuel giv inf n m s A) (b x0 : ℕ → α) (tol : α)
+    (hpz : 0 < tol ∨ PivNZ s) (hp : ∀ r < A.length, ¬ |s.getR r r| < tol) :
+    (∀ z : ℕ → α,
+      ∑ j ∈ range n, (∑ k ∈ range A.length, winFn A k j * s.solveCol b x0 tol k - b j) ^ 2 ≤
+      ∑ j ∈ range n, (∑ k ∈ range A.length, winFn A k j * z k - b j) ^ 2) ∧
+    ∀ z : ℕ → α,
+      ∑ j ∈ range n, (∑ k ∈ range A.length, winFn A k j * z k - b j) ^ 2 ≤
+        ∑ j ∈ range n, (∑ k ∈ range A.length, winFn A k j * s.solveCol b x0 tol k - b j) ^ 2 →
+      ∀ k < A.length, z k = s.solveCol b x0 tol k := by
+  have hq := history_qrinv hg hm h
+  have hO := history_orthonormal_partial hs hg hm h
+  obtain ⟨_, _, t3, _⟩ := history_solve_least_squares hs hg hm h b x0 tol hpz
+  have hdef : ∀ k < A.length, ∀ j < n, deflated s tol k j = winFn A k j := by
+    intro k hk j hj
+    exact deflated_eq_of_no_trunc s tol (winFn A) hq.repr (by rw [hq.len]; exact hp)
+      (by rw [hq.len]; exact hk) (by rw [hq.hn]; exact hj)
+  have hsum : ∀ y : ℕ → α,
+      ∑ j ∈ range n, (∑ k ∈ range A.length, deflated s tol k j * y k - b j) ^ 2 =
+      ∑ j ∈ range n, (∑ k ∈ range A.length, winFn A k j * y k - b j) ^ 2 := by
+    intro y
+    apply Finset.sum_congr rfl; intro j hj; rw [Finset.mem_range] at hj
+    congr 2
+    apply Finset.sum_congr rfl; intro k hk; rw [Finset.mem_range] at hk
+    rw [hdef k hk j hj]
+  have hp' : ∀ r < s.qIdx, ¬ |s.getR r r| < tol ∧ s.getR r r ≠ 0 := by
+    intro r hr
+    have ht := hp r (by rw [← hq.len]; exact hr)
+    refine ⟨ht, ?_⟩
+    rcases hpz with hpos | hP
+    · exact pivot_ne_zero_of_pos_tol hpos ht
+    · exact hP r hr
+  refine ⟨fun z => by rw [← hsum, ← hsum]; exact t3 z, fun z hz => ?_⟩
+  have := solveCol_ls_unique s hq.ring (winFn A) hq.repr hO b x0 tol hp' z
+    (by rw [hq.hn, hq.len]; exact hz)
+  rw [hq.len] at this
+  exact this
+
+/-- **Independent columns, threshold off (`tol ≤ 0`, e.g. the default `tol = 0` of `solve`)**: no
+    hypothesis on the factorisation at all — after any history of independent additions, nonzero
+    rescalings, removals and resets, `solve_col` returns the unique least-squares minimiser of `‖A z − b‖`. -/
+theorem history_solve_least_squares_independent (hs : SqrtLaw α) {fuel : ℕ} {giv : α → α → α × α × α}
+    (hg : GivensOK giv) {inf : α} {n m : ℕ} (hm : 0 < m) {s : LMQR α} {A : List (ℕ → α)}
+    (h : ReachI fuel giv inf n m s A) (b x0 : ℕ → α) {tol : α} (ht : tol ≤ 0) :
+    (∀ z : ℕ → α,
+      ∑ j ∈ range n, (∑ k ∈ range A.length, winFn A k j * s.solveCol b x0 tol k - b j) ^ 2 ≤
+      ∑ j ∈ range n, (∑ k ∈ range A.length, winFn A k j * z k - b j) ^ 2) ∧
+    ∀ z : ℕ → α,
+      ∑ j ∈ range n, (∑ k ∈ range A.length, winFn A k j * z k - b j) ^ 2 ≤
+        ∑ j ∈ range n, (∑ k ∈ range A.length, winFn A k j * s.solveCol b x0 tol k - b j) ^ 2 →
+      ∀ k < A.length, z k = s.solveCol b x0 tol k := by
+  obtain ⟨hr, _, hP⟩ := reachI_reach hs hg hm h
+  exact history_solve_least_squares_no_truncation hs hg hm hr b x0 tol (Or.inr hP)
+    (fun r _ hlt => absurd (lt_of_lt_of_le hlt ht) (not_lt.mpr (abs_nonneg _)))
 
 /-! ### 4. Anderson acceleration -/
 
@@ -315,22 +528,132 @@ theorem anderson_orthonormal (hs : SqrtLaw α) {fuel : ℕ} {giv : α → α →
   | reset _ _ => exact reset_orth inf _
   | scale c _ ih => exact scaleR_orth _ c ih
 
-/-- **The coefficients solve the least-squares problem** over the last `min(k, memory, n)` residual
-    differences: γ_LS minimises `‖ΔR γ − rₖ‖²` (no pivot below `max_eig · min_div_fac`). -/
+/-- **γ_LS after any Anderson history, any pivots**: the threshold is `tol = max_eig · min_div_fac`.
+    Components of γ_LS whose pivot is below it are 0; for every other pivot `k` the residual
+    `ΔR γ − rₖ` is orthogonal to `q_k`; γ_LS is a least-squares minimiser of `‖ΔR' γ − rₖ‖` over the
+    deflated window `ΔR'` of the last `min(k, memory, n)` residual differences (see
+    `history_solve_least_squares`).  Side condition as there: `tol > 0` or nonzero pivots
+    (`areachI_areach`). -/
 theorem anderson_gamma_least_squares (hs : SqrtLaw α) {fuel : ℕ} {giv : α → α → α × α × α}
     (hg : GivensOK giv) {inf : α} {memory : ℕ} {mdf : α} {n : ℕ} (hm : 0 < min n memory) {a : AA α}
     {W gs : List (ℕ → α)} {rl : ℕ → α} (h : AReach fuel giv inf memory mdf n a W gs rl) (g r : ℕ → α)
     (hnz : (addCore fuel (a.qr1 giv) (fun j => r j - readV a.rLast j)).2.2.1 ≠ 0)
+    (hpz : 0 < aaTol (a.qrNext fuel giv r).maxEig a.minDivFac ∨ PivNZ (a.qrNext fuel giv r)) :
+    (∀ k < (aaNextW (min n memory) W rl r).length,
+      |(a.qrNext fuel giv r).getR k k| < aaTol (a.qrNext fuel giv r).maxEig a.minDivFac →
+        readV (a.computeCore fuel giv g r).1.gamLS k = 0) ∧
+    (∀ k < (aaNextW (min n memory) W rl r).length,
+      ¬ |(a.qrNext fuel giv r).getR k k| < aaTol (a.qrNext fuel giv r).maxEig a.minDivFac →
+        ∑ j ∈ range n, (a.qrNext fuel giv r).Q.get j k *
+          (∑ i ∈ range (aaNextW (min n memory) W rl r).length,
+            winFn (aaNextW (min n memory) W rl r) i j * readV (a.computeCore fuel giv g r).1.gamLS i
+              - r j) = 0) ∧
+    ∀ z : ℕ → α,
+      ∑ j ∈ range n, (∑ k ∈ range (aaNextW (min n memory) W rl r).length,
+          deflated (a.qrNext fuel giv r) (aaTol (a.qrNext fuel giv r).maxEig a.minDivFac) k j *
+            readV (a.computeCore fuel giv g r).1.gamLS k - r j) ^ 2 ≤
+      ∑ j ∈ range n, (∑ k ∈ range (aaNextW (min n memory) W rl r).length,
+          deflated (a.qrNext fuel giv r) (aaTol (a.qrNext fuel giv r).maxEig a.minDivFac) k j * z k
+            - r j) ^ 2 := by
+  have hi := anderson_history hg hm h
+  have hlen : (a.qrNext fuel giv r).qIdx = (aaNextW (min n memory) W rl r).length :=
+    (hi.compute fuel giv hg g r hnz).qr.len
+  apply hi.compute_trunc hs fuel giv hg g r hnz (anderson_orthonormal hs hg hm h)
+  intro k hk ht
+  rcases hpz with hpos | hP
+  · exact pivot_ne_zero_of_pos_tol hpos ht
+  · exact hP k (by rw [hlen]; exact hk)
+
+/-- **No pivot below `max_eig · min_div_fac` ⇒ γ_LS minimises `‖ΔR γ − rₖ‖²`** over the last
+    `min(k, memory, n)` residual differences. -/
+theorem anderson_gamma_least_squares_no_truncation (hs : SqrtLaw α) {fuel : ℕ}
+    {giv : α → α → α × α × α} (hg : GivensOK giv) {inf : α} {memory : ℕ} {mdf : α} {n : ℕ}
+    (hm : 0 < min n memory) {a : AA α} {W gs : List (ℕ → α)} {rl : ℕ → α}
+    (h : AReach fuel giv inf memory mdf n a W gs rl) (g r : ℕ → α)
+    (hnz : (addCore fuel (a.qr1 giv) (fun j => r j - readV a.rLast j)).2.2.1 ≠ 0)
+    (hpz : 0 < aaTol (a.qrNext fuel giv r).maxEig a.minDivFac ∨ PivNZ (a.qrNext fuel giv r))
     (hp : ∀ k < (aaNextW (min n memory) W rl r).length,
-      ¬ |(a.qrNext fuel giv r).getR k k| < aaTol (a.qrNext fuel giv r).maxEig a.minDivFac ∧
-        (a.qrNext fuel giv r).getR k k ≠ 0) :
+      ¬ |(a.qrNext fuel giv r).getR k k| < aaTol (a.qrNext fuel giv r).maxEig a.minDivFac) :
     ∀ z : ℕ → α,
       ∑ j ∈ range n, (∑ k ∈ range (aaNextW (min n memory) W rl r).length,
           winFn (aaNextW (min n memory) W rl r) k j * readV (a.computeCore fuel giv g r).1.gamLS k
             - r j) ^ 2 ≤
       ∑ j ∈ range n, (∑ k ∈ range (aaNextW (min n memory) W rl r).length,
-          winFn (aaNextW (min n memory) W rl r) k j * z k - r j) ^ 2 :=
-  (anderson_history hg hm h).compute_ls hs fuel giv hg g r hnz (anderson_orthonormal hs hg hm h) hp
+          winFn (aaNextW (min n memory) W rl r) k j * z k - r j) ^ 2 := by
+  have hi := anderson_history hg hm h
+  have hlen : (a.qrNext fuel giv r).qIdx = (aaNextW (min n memory) W rl r).length :=
+    (hi.compute fuel giv hg g r hnz).qr.len
+  apply hi.compute_ls hs fuel giv hg g r hnz (anderson_orthonormal hs hg hm h)
+  intro k hk
+  refine ⟨hp k hk, ?_⟩
+  rcases hpz with hpos | hP
+  · exact pivot_ne_zero_of_pos_tol hpos (hp k hk)
+  · exact hP k (by rw [hlen]; exact hk)
+
+/-- `AReach` histories described by their **inputs only**: every `compute(g, r)` brings a residual
+    difference `r − r_last` that is linearly independent of the residual differences staying in the
+    window, every rescaling is by a nonzero factor. -/
+inductive AReachI (fuel : ℕ) (giv : α → α → α × α × α) (inf : α) (memory : ℕ) (mdf : α) (n : ℕ) :
+    AA α → List (ℕ → α) → List (ℕ → α) → (ℕ → α) → Prop
+  | init (g0 r0 : ℕ → α) :
+      AReachI fuel giv inf memory mdf n ((AA.new inf memory mdf n).initialize inf g0 r0) [] [g0] r0
+  | reinit {a W gs rl} (g0 r0 : ℕ → α) : AReachI fuel giv inf memory mdf n a W gs rl →
+      AReachI fuel giv inf memory mdf n (a.initialize inf g0 r0) [] [g0] r0
+  | compute {a W gs rl} (g r : ℕ → α) : AReachI fuel giv inf memory mdf n a W gs rl →
+      (¬ ∃ z : ℕ → α, ∀ j < n, r j - rl j =
+        ∑ k ∈ range (if W.length = min n memory then W.tail else W).length,
+          winFn (if W.length = min n memory then W.tail else W) k j * z k) →
+      AReachI fuel giv inf memory mdf n (a.computeCore fuel giv g r).1
+        (aaNextW (min n memory) W rl r) (aaNextG (min n memory) W gs g) r
+  | reset {a W gs rl} : AReachI fuel giv inf memory mdf n a W gs rl →
+      AReachI fuel giv inf memory mdf n (a.reset inf) [] [winFn gs W.length] rl
+  | scale {a W gs rl} (c : α) : c ≠ 0 → AReachI fuel giv inf memory mdf n a W gs rl →
+      AReachI fuel giv inf memory mdf n (a.scaleR c) (W.map fun col j => col j * c) gs rl
+
+/-- **`hnz` discharged for Anderson**: an `AReachI` history is an `AReach` history with orthonormal `Q`
+    and nonzero pivots. -/
+theorem areachI_areach (hs : SqrtLaw α) {fuel : ℕ} {giv : α → α → α × α × α} (hg : GivensOK giv)
+    {inf : α} {memory : ℕ} {mdf : α} {n : ℕ} (hm : 0 < min n memory) {a : AA α} {W gs : List (ℕ → α)}
+    {rl : ℕ → α} (h : AReachI fuel giv inf memory mdf n a W gs rl) :
+    AReach fuel giv inf memory mdf n a W gs rl ∧ Orth a.qr ∧ PivNZ a.qr := by
+  induction h with
+  | init g0 r0 => exact ⟨AReach.init g0 r0, reset_orth inf _, reset_pivnz inf _⟩
+  | reinit g0 r0 _ ih => exact ⟨AReach.reinit g0 r0 ih.1, reset_orth inf _, reset_pivnz inf _⟩
+  | @compute a W gs rl g r _ hind ih =>
+    obtain ⟨hr, hO, hP⟩ := ih
+    have hi := anderson_history hg hm hr
+    have hnz := hi.compute_hnz hs fuel giv hg r hO hP hind
+    exact ⟨AReach.compute g r hr hnz, hi.compute_orth hs fuel giv hg g r hnz hO,
+      hi.compute_pivnz fuel giv hg g r hnz hP⟩
+  | reset _ ih => exact ⟨AReach.reset ih.1, reset_orth inf _, reset_pivnz inf _⟩
+  | @scale a W gs rl c hc _ ih =>
+    obtain ⟨hr, hO, hP⟩ := ih
+    exact ⟨AReach.scale c hr, scaleR_orth _ c hO,
+      scaleR_pivnz a.qr (anderson_history hg hm hr).qr.ring hc hP⟩
+
+/-- **Anderson on independent residual differences — no hypothesis on the factorisation**: the output of
+    `compute(g, r)` is the affine combination `Σ αᵢ gᵢ`, `Σ αᵢ = 1`, and γ_LS has the properties of
+    `anderson_gamma_least_squares` (in particular it is the least-squares minimiser over the last
+    `min(k, memory, n)` residual differences when no pivot is below `max_eig · min_div_fac`). -/
+theorem anderson_independent (hs : SqrtLaw α) {fuel : ℕ} {giv : α → α → α × α × α} (hg : GivensOK giv)
+    {inf : α} {memory : ℕ} {mdf : α} {n : ℕ} (hm : 0 < min n memory) {a : AA α} {W gs : List (ℕ → α)}
+    {rl : ℕ → α} (h : AReachI fuel giv inf memory mdf n a W gs rl) (g r : ℕ → α)
+    (hind : ¬ ∃ z : ℕ → α, ∀ j < n, r j - rl j =
+      ∑ k ∈ range (if W.length = min n memory then W.tail else W).length,
+        winFn (if W.length = min n memory then W.tail else W) k j * z k) :
+    (addCore fuel (a.qr1 giv) (fun j => r j - readV a.rLast j)).2.2.1 ≠ 0 ∧
+    PivNZ (a.qrNext fuel giv r) ∧
+    ((∑ i ∈ range ((aaNextW (min n memory) W rl r).length + 1),
+        aaCoef (readV (a.computeCore fuel giv g r).1.gamLS) (aaNextW (min n memory) W rl r).length i
+      = 1) ∧
+    ∀ j < n, readV (a.computeCore fuel giv g r).2 j =
+      ∑ i ∈ range ((aaNextW (min n memory) W rl r).length + 1),
+        aaCoef (readV (a.computeCore fuel giv g r).1.gamLS) (aaNextW (min n memory) W rl r).length i *
+          winFn (aaNextG (min n memory) W gs g) i j) := by
+  obtain ⟨hr, hO, hP⟩ := areachI_areach hs hg hm h
+  have hi := anderson_history hg hm hr
+  have hnz := hi.compute_hnz hs fuel giv hg r hO hP hind
+  exact ⟨hnz, hi.compute_pivnz fuel giv hg g r hnz hP, anderson_output_affine hg hm hr g r hnz⟩
 
 end
 
@@ -372,40 +695,266 @@ theorem givR_ok : GivensOK givR := by
     · show w = p / w * p - -q / w * q
       rw [e2, ← hs, mul_div_assoc, div_self h, mul_one]
 
-def eR (i : ℕ) : ℕ → ℝ := fun j => if j = i then 1 else 0
+/-! #### A wrapped ring over `ℝ` with the executed Givens function
 
-/-- Over `ℝ`, with the real Givens rotation and the real square root, a concrete non-trivial history
-    (add, scale, remove, add) is reachable — all hypotheses of the history theorems hold at once —
-    and the conclusion of `history_invariant` / `history_orthonormal_partial` is about a window of
-    length 1. -/
-example : ∃ (s : LMQR ℝ) (A : List (ℕ → ℝ)), A.length = 1 ∧ Reach 0 givR 1000 2 2 s A ∧
-    Represents s (winFn A) ∧ Orth s := by
-  have hq0 : (LMQR.new (1000 : ℝ) 2 2).qIdx = 0 := (new_idx _ _ _).1
-  have hn1 : (addCore 0 (LMQR.new (1000 : ℝ) 2 2) (eR 0)).2.2.1 ≠ 0 := by
-    simp [addCore, LMQR.new, LMQR.reset, lmqrResetIdx, lmqrResetEig, mgsPass, reorthLoop, normTo, sumTo,
-      readV_freezeV, eR, RealLike.sqrt]
-  have r1 : Reach 0 givR 1000 2 2 _ _ := Reach.add (eR 0) Reach.new (by rw [hq0]; norm_num) hn1
-  have r2 := Reach.scale (2 : ℝ) r1
-  have hq2 : 0 < (((LMQR.new (1000 : ℝ) 2 2).addColumn 0 (eR 0)).scaleR 2).qIdx := by
-    rw [(scaleR_idx _ _).1, (addColumn_idx _ _ _).1]; omega
-  have r3 := Reach.remove r2 hq2
-  have hq3 : ((((LMQR.new (1000 : ℝ) 2 2).addColumn 0 (eR 0)).scaleR 2).removeColumn givR).qIdx = 0 := by
-    rw [(history_invariant givR_ok (by norm_num) r3).2.2.1]; rfl
-  have hn4 : (addCore 0 ((((LMQR.new (1000 : ℝ) 2 2).addColumn 0 (eR 0)).scaleR 2).removeColumn givR)
-      (eR 1)).2.2.1 ≠ 0 := by
-    have hn : ((((LMQR.new (1000 : ℝ) 2 2).addColumn 0 (eR 0)).scaleR 2).removeColumn givR).n = 2 :=
-      (history_invariant givR_ok (by norm_num) r3).1
-    simp [addCore, hq3, hn, mgsPass, reorthLoop, normTo, sumTo, readV_freezeV, eR, RealLike.sqrt]
-  have r4 := Reach.add (eR 1) r3 (by rw [hq3]; norm_num) hn4
-  exact ⟨_, _, by simp, r4, (history_invariant givR_ok (by norm_num) r4).2.2.2.2.2.2,
-    history_orthonormal_partial sqrtLaw_real givR_ok (by norm_num) r4⟩
+    Capacity `m = 3`, dimension `n = 3`, `giv = givensEigen`, `sqrt = Real.sqrt`: add `v₁ v₂ v₃` (ring full),
+    remove, remove, add `v₄`.  The window is `[v₃, v₄]`, the head is storage column `2`, the two logical
+    columns live in storage columns `2, 0` (wrapped), the tail is `1`.  Every hypothesis of the property
+    theorems (`RingInv`, `Represents`, `Orth`, `PivNZ`, `GivensOK`, `SqrtLaw`, `hnz`, capacity) is
+    instantiated on this state below. -/
 
-/-! Kernel-evaluated runs of the model over `ℚ`.  `sqrt := id` is a stand-in that is a true square
-    root on the values these runs hit (`√1 = 1`); it is used only to show that concrete histories —
+def vR (a b c : ℝ) : ℕ → ℝ := fun j => if j = 0 then a else if j = 1 then b else if j = 2 then c else 0
+
+/-- the function the driver executes, at `ℝ` -/
+noncomputable abbrev gE : ℝ → ℝ → ℝ × ℝ × ℝ := givensEigen
+
+theorem gE_ok : GivensOK gE := givensEigen_ok sqrtLaw_real
+
+theorem reachI_len {s : LMQR ℝ} {A : List (ℕ → ℝ)} (h : ReachI 8 gE 1000 3 3 s A) :
+    s.qIdx = A.length ∧ s.m = 3 ∧ s.n = 3 ∧ RingInv s :=
+  have hq := history_qrinv gE_ok (by norm_num) (reachI_reach sqrtLaw_real gE_ok (by norm_num) h).1
+  ⟨hq.len, hq.hm, hq.hn, hq.ring⟩
+
+/-- closes `¬ ∃ z, ∀ j < 3, v j = Σ_k A_k j · z k` for concrete `v`, `A` by looking at the three rows -/
+macro "indep3" : tactic => `(tactic| (
+  rintro ⟨z, hz⟩
+  have h0 := hz 0 (by norm_num)
+  have h1 := hz 1 (by norm_num)
+  have h2 := hz 2 (by norm_num)
+  simp [winFn, vR, Finset.sum_range_succ] at h0 h1 h2
+  try linarith))
+
+def sW0 : LMQR ℝ := LMQR.new 1000 3 3
+noncomputable def sW3 : LMQR ℝ := ((sW0.addColumn 8 (vR 1 0 0)).addColumn 8 (vR 1 1 0)).addColumn 8 (vR 1 1 1)
+noncomputable def sW5 : LMQR ℝ := (sW3.removeColumn gE).removeColumn gE
+/-- the wrapped state: window `[v₃, v₄] = [(1,1,1), (0,1,0)]` -/
+noncomputable def sW : LMQR ℝ := sW5.addColumn 8 (vR 0 1 0)
+
+theorem sW3_reach : ReachI 8 gE 1000 3 3 sW3 [vR 1 0 0, vR 1 1 0, vR 1 1 1] := by
+  have r1 : ReachI 8 gE 1000 3 3 (sW0.addColumn 8 (vR 1 0 0)) [vR 1 0 0] :=
+    ReachI.add (vR 1 0 0) ReachI.new (by rw [(new_idx _ _ _).1]; norm_num) (by indep3)
+  have r2 : ReachI 8 gE 1000 3 3 ((sW0.addColumn 8 (vR 1 0 0)).addColumn 8 (vR 1 1 0))
+      [vR 1 0 0, vR 1 1 0] :=
+    ReachI.add (vR 1 1 0) r1 (by rw [(reachI_len r1).1]; simp) (by indep3)
+  exact ReachI.add (vR 1 1 1) r2 (by rw [(reachI_len r2).1]; simp) (by indep3)
+
+theorem sW5_reach : ReachI 8 gE 1000 3 3 sW5 [vR 1 1 1] := by
+  have r4 : ReachI 8 gE 1000 3 3 (sW3.removeColumn gE) [vR 1 1 0, vR 1 1 1] :=
+    ReachI.remove sW3_reach (by rw [(reachI_len sW3_reach).1]; simp)
+  exact ReachI.remove r4 (by rw [(reachI_len r4).1]; simp)
+
+theorem sW_reach : ReachI 8 gE 1000 3 3 sW [vR 1 1 1, vR 0 1 0] :=
+  ReachI.add (vR 0 1 0) sW5_reach (by rw [(reachI_len sW5_reach).1]; simp) (by indep3)
+
+/-- the ring of `sW` has wrapped: `q_idx = 2`, head `r_idx_start = 2`, tail `r_idx_end = 1`, logical columns
+    `0, 1` in storage columns `2, 0` -/
+theorem sW_wrapped : sW.qIdx = 2 ∧ sW.rStart = 2 ∧ sW.rEnd = 1 ∧ sW.m = 3 ∧ sW.n = 3 ∧
+    sW.ringFwd = [(0, 2), (1, 0)] ∧ sW.ringRev = [(1, 0), (0, 2)] := by
+  have h0 : sW0.rStart = 0 := by simp [sW0, LMQR.new, LMQR.reset, lmqrResetIdx, lmqrResetEig]
+  have h3 : sW3.rStart = 0 := by
+    unfold sW3; rw [(addColumn_idx _ _ _).2.1, (addColumn_idx _ _ _).2.1, (addColumn_idx _ _ _).2.1, h0]
+  have r4 : ReachI 8 gE 1000 3 3 (sW3.removeColumn gE) [vR 1 1 0, vR 1 1 1] :=
+    ReachI.remove sW3_reach (by rw [(reachI_len sW3_reach).1]; simp)
+  have h4 : (sW3.removeColumn gE).rStart = 1 := by
+    rw [(removeColumn_idx gE sW3 (reachI_len sW3_reach).2.2.2
+      (by rw [(reachI_len sW3_reach).1]; simp)).2.1, h3, (reachI_len sW3_reach).2.1]
+  have h5 : sW5.rStart = 2 := by
+    unfold sW5
+    rw [(removeColumn_idx gE _ (reachI_len r4).2.2.2 (by rw [(reachI_len r4).1]; simp)).2.1, h4,
+      (reachI_len r4).2.1]
+  have hs : sW.rStart = 2 := by unfold sW; rw [(addColumn_idx _ _ _).2.1, h5]
+  obtain ⟨l1, l2, l3, l4⟩ := reachI_len sW_reach
+  have hq : sW.qIdx = 2 := by rw [l1]; rfl
+  have he : sW.rEnd = 1 := by rw [l4.end_eq, hs, hq, l2]
+  refine ⟨hq, hs, he, l2, l3, ?_, ?_⟩
+  · rw [ring_iter_logical sW l4, hq, hs, l2]; rfl
+  · rw [ring_reverse_iter_reverse sW l4, ring_iter_logical sW l4, hq, hs, l2]; rfl
+
+theorem sW_facts : Reach 8 gE 1000 3 3 sW [vR 1 1 1, vR 0 1 0] ∧ RingInv sW ∧
+    Represents sW (winFn [vR 1 1 1, vR 0 1 0]) ∧ Orth sW ∧ PivNZ sW := by
+  obtain ⟨hr, hO, hP⟩ := reachI_reach sqrtLaw_real gE_ok (by norm_num) sW_reach
+  have hq := history_qrinv gE_ok (by norm_num) hr
+  exact ⟨hr, hq.ring, hq.repr, hO, hP⟩
+
+/-- the new column `(1,0,0)` is independent of the window `[(1,1,1), (0,1,0)]`, so `norm_q ≠ 0` -/
+theorem sW_add_hnz : (addCore 8 sW (vR 1 0 0)).2.2.1 ≠ 0 := by
+  obtain ⟨_, hR, hA, hO, hP⟩ := sW_facts
+  apply addColumn_norm_ne_zero_of_independent sqrtLaw_real 8 sW hR _ hA hO hP
+  rw [sW_wrapped.1, sW_wrapped.2.2.2.2.1]
+  indep3
+
+/-- ring lemmas on the wrapped state: logical columns 0, 1 sit in distinct storage columns 2, 0 -/
+example : sW.slot 0 = 2 ∧ sW.slot 1 = 0 ∧ sW.slot 0 ≠ sW.slot 1 := by
+  refine ⟨?_, ?_, ring_slots_distinct sW sW_facts.2.1 (by norm_num) (by rw [sW_wrapped.1]; norm_num)⟩
+  · unfold LMQR.slot; rw [sW_wrapped.2.1, sW_wrapped.2.2.2.1]
+  · unfold LMQR.slot; rw [sW_wrapped.2.1, sW_wrapped.2.2.2.1]
+
+/-- `addColumn_QR`, `addColumn_orthonormal` on the wrapped state (the ring becomes full: columns 2, 0, 1) -/
+example : RingInv (sW.addColumn 8 (vR 1 0 0)) ∧ (sW.addColumn 8 (vR 1 0 0)).qIdx = 3 ∧
+    Represents (sW.addColumn 8 (vR 1 0 0))
+      (fun k => if k = sW.qIdx then vR 1 0 0 else winFn [vR 1 1 1, vR 0 1 0] k) ∧
+    Orth (sW.addColumn 8 (vR 1 0 0)) := by
+  obtain ⟨_, hR, hA, hO, hP⟩ := sW_facts
+  have hK : sW.qIdx < sW.m := by rw [sW_wrapped.1, sW_wrapped.2.2.2.1]; norm_num
+  obtain ⟨a1, a2, a3⟩ := addColumn_QR 8 sW hR hK (vR 1 0 0) sW_add_hnz _ hA
+  exact ⟨a1, by rw [a2, sW_wrapped.1], a3, addColumn_orthonormal sqrtLaw_real 8 sW hR hK _ sW_add_hnz hO⟩
+
+/-- `removeColumn_QR`, `removeColumn_orthonormal`, `removeColumn_pivots_nonzero` on the wrapped state, with
+    the executed Givens function: the head wraps from storage column 2 to 0 -/
+example : RingInv (sW.removeColumn gE) ∧ (sW.removeColumn gE).qIdx = 1 ∧ (sW.removeColumn gE).rStart = 0 ∧
+    Represents (sW.removeColumn gE) (fun k => winFn [vR 1 1 1, vR 0 1 0] (k + 1)) ∧
+    Orth (sW.removeColumn gE) ∧ PivNZ (sW.removeColumn gE) := by
+  obtain ⟨_, hR, hA, hO, hP⟩ := sW_facts
+  have hK : 0 < sW.qIdx := by rw [sW_wrapped.1]; norm_num
+  obtain ⟨a1, a2, a3, a4⟩ := removeColumn_QR_executed sqrtLaw_real sW hR hK _ hA
+  exact ⟨a1, by rw [a2, sW_wrapped.1], by rw [a3, sW_wrapped.2.1, sW_wrapped.2.2.2.1], a4,
+    removeColumn_orthonormal_executed sqrtLaw_real sW hR hK hO,
+    removeColumn_pivots_nonzero gE gE_ok sW hR hK hP⟩
+
+/-- `scaleR_QR` on the wrapped state -/
+example : Represents (sW.scaleR (-2)) (fun k j => winFn [vR 1 1 1, vR 0 1 0] k j * (-2)) :=
+  (scaleR_QR sW sW_facts.2.1 (-2) _ sW_facts.2.2.1).2.2
+
+/-- `history_invariant`, `history_orthonormal_partial` on the wrapped history -/
+example : sW.n = 3 ∧ sW.m = 3 ∧ sW.qIdx = 2 ∧ sW.qIdx ≤ 3 ∧ sW.rStart < 3 ∧
+    sW.rEnd = (sW.rStart + sW.qIdx) % 3 ∧ Represents sW (winFn [vR 1 1 1, vR 0 1 0]) ∧ Orth sW :=
+  have h := history_invariant gE_ok (by norm_num) sW_facts.1
+  ⟨h.1, h.2.1, h.2.2.1, h.2.2.2.1, h.2.2.2.2.1, h.2.2.2.2.2.1, h.2.2.2.2.2.2,
+    history_orthonormal_partial sqrtLaw_real gE_ok (by norm_num) sW_facts.1⟩
+
+/-- `solveCol_backsubst`, `solveCol_any_pivots`, `history_solve_least_squares` (threshold `1 > 0`),
+    `…_no_truncation` and `…_independent` (threshold `0`), `ls_optimal`, `ls_unique` on the wrapped state:
+    every hypothesis is instantiated; `b = (1, 2, 3)` -/
+example : True := by
+  obtain ⟨hr, hR, hA, hO, hP⟩ := sW_facts
+  have e1 := solveCol_backsubst sW hR (vR 1 2 3) (fun _ => 7) 1
+  have e2 := solveCol_any_pivots sW hR _ hA hO (vR 1 2 3) (fun _ => 7) 1 (fun r hr _ => hP r hr)
+  have e3 := history_solve_least_squares sqrtLaw_real gE_ok (by norm_num) hr (vR 1 2 3) (fun _ => 7) 1
+    (Or.inl one_pos)
+  have hp0 : ∀ r < [vR 1 1 1, vR 0 1 0].length, ¬ |sW.getR r r| < 0 :=
+    fun r _ => not_lt.mpr (abs_nonneg _)
+  have e4 := history_solve_least_squares_no_truncation sqrtLaw_real gE_ok (by norm_num) hr (vR 1 2 3)
+    (fun _ => 7) 0 (Or.inr hP) hp0
+  have e5 := history_solve_least_squares_independent sqrtLaw_real gE_ok (by norm_num) sW_reach (vR 1 2 3)
+    (fun _ => 7) (le_refl (0 : ℝ))
+  -- the generic normal-equation theorems, instantiated with the factorisation of the wrapped state
+  have hx : ∀ r < sW.qIdx, ∑ k ∈ range sW.qIdx, sW.getR r k * sW.solveCol (vR 1 2 3) (fun _ => 7) 0 k =
+      ∑ j ∈ range sW.n, sW.Q.get j r * vR 1 2 3 j :=
+    fun r hr => ((solveCol_backsubst sW hR (vR 1 2 3) (fun _ => 7) 0).2 r hr).2
+      (not_lt.mpr (abs_nonneg _)) (hP r hr)
+  have e6 := ls_optimal sW.n sW.qIdx sW.Q.get sW.getR _ hA hO (vR 1 2 3) _ hx
+  have e7 := fun z hz => ls_unique sW.n sW.qIdx sW.Q.get sW.getR _ hA hO (vR 1 2 3) _ hx hP
+    (fun i k hik => getR_upper_triangular sW hik) z hz
+  trivial
+
+/-! #### Anderson over `ℝ`: memory 2, `n = 3` (`m_AA = 2`), three `compute`s — the third one removes the oldest
+    column, so the ring of the QR inside has wrapped (head = storage column 1) -/
+
+noncomputable def aW0 : AA ℝ := (AA.new 1000 2 (1/1000) 3).initialize 1000 (vR 1 2 3) (vR 0 0 0)
+noncomputable def aW1 : AA ℝ := (aW0.computeCore 8 gE (vR 2 0 1) (vR 1 0 0)).1
+noncomputable def aW2 : AA ℝ := (aW1.computeCore 8 gE (vR 0 1 1) (vR 1 1 0)).1
+noncomputable def aW : AA ℝ := (aW2.computeCore 8 gE (vR 3 1 2) (vR 1 1 1)).1
+
+noncomputable def dW1 : List (ℕ → ℝ) := aaNextW (min 3 2) [] (vR 0 0 0) (vR 1 0 0)
+noncomputable def dW2 : List (ℕ → ℝ) := aaNextW (min 3 2) dW1 (vR 1 0 0) (vR 1 1 0)
+noncomputable def dW3 : List (ℕ → ℝ) := aaNextW (min 3 2) dW2 (vR 1 1 0) (vR 1 1 1)
+noncomputable def gW1 : List (ℕ → ℝ) := aaNextG (min 3 2) [] [vR 1 2 3] (vR 2 0 1)
+noncomputable def gW2 : List (ℕ → ℝ) := aaNextG (min 3 2) dW1 gW1 (vR 0 1 1)
+noncomputable def gW3 : List (ℕ → ℝ) := aaNextG (min 3 2) dW2 gW2 (vR 3 1 2)
+
+/-- like `indep3`, for the residual differences of the Anderson runs -/
+macro "indepA" : tactic => `(tactic| (
+  rintro ⟨z, hz⟩
+  have h0 := hz 0 (by norm_num)
+  have h1 := hz 1 (by norm_num)
+  have h2 := hz 2 (by norm_num)
+  simp [dW3, dW2, dW1, aaNextW, winFn, vR, Finset.sum_range_succ] at h0 h1 h2
+  try linarith))
+
+theorem aW_reach : AReachI 8 gE 1000 2 (1/1000) 3 aW dW3 gW3 (vR 1 1 1) := by
+  have r0 : AReachI 8 gE 1000 2 (1/1000) 3 aW0 [] [vR 1 2 3] (vR 0 0 0) := AReachI.init _ _
+  have r1 : AReachI 8 gE 1000 2 (1/1000) 3 aW1 dW1 gW1 (vR 1 0 0) :=
+    AReachI.compute (vR 2 0 1) (vR 1 0 0) r0 (by indepA)
+  have r2 : AReachI 8 gE 1000 2 (1/1000) 3 aW2 dW2 gW2 (vR 1 1 0) :=
+    AReachI.compute (vR 0 1 1) (vR 1 1 0) r1 (by indepA)
+  exact AReachI.compute (vR 3 1 2) (vR 1 1 1) r2 (by indepA)
+
+/-- the next residual `(2,1,1)`: its difference `(1,0,0)` with `r_last = (1,1,1)` is independent of the
+    residual difference `(0,0,1)` that stays in the (full) window -/
+theorem aW_next_indep : ¬ ∃ z : ℕ → ℝ, ∀ j < 3, vR 2 1 1 j - vR 1 1 1 j =
+    ∑ k ∈ range (if dW3.length = min 3 2 then dW3.tail else dW3).length,
+      winFn (if dW3.length = min 3 2 then dW3.tail else dW3) k j * z k := by indepA
+
+/-- the window of `aW` has 2 columns and its ring has wrapped (head = storage column 1) -/
+theorem aW_wrapped : dW3.length = 2 ∧ aW.qr.qIdx = 2 ∧ aW.qr.m = 2 ∧ aW.qr.rStart = 1 := by
+  obtain ⟨hr, _, _⟩ := areachI_areach sqrtLaw_real gE_ok (by norm_num) aW_reach
+  have hi := anderson_history gE_ok (by norm_num) hr
+  have hl : dW3.length = 2 := by simp [dW3, dW2, dW1, aaNextW]
+  refine ⟨hl, by rw [hi.qr.len, hl], hi.qr.hm, ?_⟩
+  -- third compute: the ring was full, so `remove_column` advanced the head from 0 to 1
+  have r2 : AReachI 8 gE 1000 2 (1/1000) 3 aW2 dW2 gW2 (vR 1 1 0) := by
+    have r0 : AReachI 8 gE 1000 2 (1/1000) 3 aW0 [] [vR 1 2 3] (vR 0 0 0) := AReachI.init _ _
+    have r1 : AReachI 8 gE 1000 2 (1/1000) 3 aW1 dW1 gW1 (vR 1 0 0) :=
+      AReachI.compute (vR 2 0 1) (vR 1 0 0) r0 (by indepA)
+    exact AReachI.compute (vR 0 1 1) (vR 1 1 0) r1 (by indepA)
+  have hi2 := anderson_history gE_ok (by norm_num) (areachI_areach sqrtLaw_real gE_ok (by norm_num) r2).1
+  have hl2 : dW2.length = 2 := by simp [dW2, dW1, aaNextW]
+  have hq2 : aW2.qr.qIdx = 2 := by rw [hi2.qr.len, hl2]
+  have hm2 : aW2.qr.m = 2 := hi2.qr.hm
+  have hs0 : aW0.qr.rStart = 0 := by
+    simp [aW0, AA.initialize, AA.new, LMQR.new, LMQR.reset, lmqrResetIdx, lmqrResetEig]
+  have hq0 : aW0.qr.qIdx = 0 := by
+    simp [aW0, AA.initialize, AA.new, LMQR.new, LMQR.reset, lmqrResetIdx, lmqrResetEig]
+  have hm0 : aW0.qr.m = 2 := by
+    simp [aW0, AA.initialize, AA.new, LMQR.new, LMQR.reset, lmqrResetIdx, lmqrResetEig, aaMem]
+  -- compute 1 and 2 do not remove: the head stays 0
+  have hs1 : aW1.qr.rStart = 0 := by
+    show (aW0.qrNext 8 gE (vR 1 0 0)).rStart = 0
+    unfold AA.qrNext
+    rw [(addColumn_idx _ _ _).2.1, if_neg (by simp [aaFull, lmqrNumColumns, hq0, hm0]), hs0]
+  have r1 : AReachI 8 gE 1000 2 (1/1000) 3 aW1 dW1 gW1 (vR 1 0 0) :=
+    AReachI.compute (vR 2 0 1) (vR 1 0 0) (AReachI.init _ _) (by indepA)
+  have hi1 := anderson_history gE_ok (by norm_num) (areachI_areach sqrtLaw_real gE_ok (by norm_num) r1).1
+  have hq1 : aW1.qr.qIdx = 1 := by rw [hi1.qr.len]; simp [dW1, aaNextW]
+  have hm1 : aW1.qr.m = 2 := hi1.qr.hm
+  have hs2 : aW2.qr.rStart = 0 := by
+    show (aW1.qrNext 8 gE (vR 1 1 0)).rStart = 0
+    unfold AA.qrNext
+    rw [(addColumn_idx _ _ _).2.1, if_neg (by simp [aaFull, lmqrNumColumns, hq1, hm1]), hs1]
+  show (aW2.qrNext 8 gE (vR 1 1 1)).rStart = 1
+  unfold AA.qrNext
+  rw [(addColumn_idx _ _ _).2.1, if_pos (by simp [aaFull, lmqrNumColumns, hq2, hm2]),
+    (removeColumn_idx gE _ hi2.qr.ring (by rw [hq2]; norm_num)).2.1, hs2, hm2]
+
+/-- `anderson_history`, `anderson_window_length`, `anderson_orthonormal`, `anderson_independent`,
+    `anderson_output_affine`, `anderson_affine`, `anderson_gamma_least_squares` (+ `_no_truncation` with
+    `min_div_fac`-threshold replaced by the case hypothesis) on the wrapped accelerator: every hypothesis
+    instantiated for a fourth `compute(g, r)` with `g = (1,1,1)`, `r = (2,1,1)` -/
+example : True := by
+  obtain ⟨hr, hO, hP⟩ := areachI_areach sqrtLaw_real gE_ok (by norm_num) aW_reach
+  have e1 := anderson_history gE_ok (by norm_num) hr
+  have e2 := anderson_window_length gE_ok (by norm_num) hr (vR 2 1 1)
+  have e3 := anderson_orthonormal sqrtLaw_real gE_ok (by norm_num) hr
+  obtain ⟨hnz, hP', e4⟩ := anderson_independent sqrtLaw_real gE_ok (by norm_num) aW_reach (vR 1 1 1)
+    (vR 2 1 1) aW_next_indep
+  have e5 := anderson_output_affine gE_ok (by norm_num) hr (vR 1 1 1) (vR 2 1 1) hnz
+  have hnext := e1.compute 8 gE gE_ok (vR 1 1 1) (vR 2 1 1) hnz
+  have e6 := anderson_affine 8 gE aW (vR 1 1 1) (vR 2 1 1) hnext.qr.ring
+    (by rw [show (aW.qrNext 8 gE (vR 2 1 1)).qIdx = _ from hnext.qr.len]; simp [aaNextW])
+  have e7 := anderson_gamma_least_squares sqrtLaw_real gE_ok (by norm_num) hr (vR 1 1 1) (vR 2 1 1) hnz
+    (Or.inr hP')
+  have e8 := fun hp => anderson_gamma_least_squares_no_truncation sqrtLaw_real gE_ok (by norm_num) hr
+    (vR 1 1 1) (vR 2 1 1) hnz (Or.inr hP') hp
+  trivial
+
+/-! Kernel-evaluated runs of the model over `ℚ`.  `sqrt` is a stand-in that is a true square
+    root on the pivots these runs produce (`√1 = 1`, `√(1/4) = 1/2`); it is used only to show that concrete histories —
     including a ring wrap-around, a Givens sweep over two columns and an Anderson update on a full
     ring — satisfy the side conditions (`hnz`, capacity) of `Reach` / `AReach`. -/
 section rat
-local instance ratRealLike : RealLike ℚ := ⟨id, fun _ => false, fun _ => true⟩
+/-- `√(1/4) = 1/2`, identity elsewhere (a true square root on `0`, `1/4`, `1`) -/
+local instance ratRealLike : RealLike ℚ :=
+  ⟨fun x => if x = 1/4 then 1/2 else x, fun _ => false, fun _ => true⟩
 
 def cQ (a b c : ℚ) : ℕ → ℚ := fun j => if j = 0 then a else if j = 1 then b else if j = 2 then c else 0
 
@@ -438,6 +987,33 @@ example : AReach 4 givensEigen 1000 2 (1/1000) 3
   AReach.compute (cQ 0 1 0) (cQ 0 1 0)
     (AReach.compute (cQ 2 2 2) (cQ 0 0 0) (AReach.init (cQ 1 2 3) (cQ 1 0 0)) (by decide +kernel))
     (by decide +kernel)
+
+/-- window `[(1/2, 0), (1, 1)]`: `Q = I`, `R = [[1/2, 1], [0, 1]]` -/
+def sT : LMQR ℚ := ((LMQR.new (1000 : ℚ) 2 2).addColumn 4 (cQ (1/2) 0 0)).addColumn 4 (cQ 1 1 0)
+
+/-- **A skipped pivot does not give the constrained least-squares minimiser.**  On the state `sT`
+    (orthonormal `Q`, `QR = A`, `A = [(1/2, 0), (1, 1)]`) with `b = (0, 1)` and threshold `3/4`: pivot 0
+    (`= 1/2`) is skipped, pivot 1 (`= 1`) is not; `solve_col` returns `x = (0, 1)` with `‖A x − b‖² = 1`, but
+    `z = (0, 1/2)` — also with `z₀ = 0` — has `‖A z − b‖² = 1/2`.  So "least-squares minimiser … (components
+    with pivots below the threshold set to zero)" holds only in the sense of `history_solve_least_squares`
+    (deflated window), not as a minimiser of `‖A z − b‖` over `{z₀ = 0}`. -/
+theorem truncated_solve_is_not_the_constrained_minimiser :
+    (∀ a < 2, ∀ c < 2, ∑ j ∈ range 2, sT.Q.get j a * sT.Q.get j c = if a = c then 1 else 0) ∧
+    (∀ k < 2, ∀ j < 2, colSum sT k j = winFn [cQ (1/2) 0 0, cQ 1 1 0] k j) ∧
+    |sT.getR 0 0| < 3/4 ∧ ¬ |sT.getR 1 1| < 3/4 ∧
+    sT.solveCol (cQ 0 1 0) (fun _ => 7) (3/4) 0 = 0 ∧ sT.solveCol (cQ 0 1 0) (fun _ => 7) (3/4) 1 = 1 ∧
+    ∑ j ∈ range 2, (∑ k ∈ range 2, winFn [cQ (1/2) 0 0, cQ 1 1 0] k j *
+        (if k = 1 then (1/2 : ℚ) else 0) - cQ 0 1 0 j) ^ 2 <
+      ∑ j ∈ range 2, (∑ k ∈ range 2, winFn [cQ (1/2) 0 0, cQ 1 1 0] k j *
+        sT.solveCol (cQ 0 1 0) (fun _ => 7) (3/4) k - cQ 0 1 0 j) ^ 2 := by
+  decide +kernel
+
+/-- index lemmas at the wrap-around point of a capacity-3 ring -/
+example : lmqrSucc 3 2 = 0 ∧ lmqrPred 3 0 = 2 ∧ circInc 3 5 2 = (6, 0) ∧ circDec 3 5 0 = (4, 2) :=
+  ⟨((ring_succ_pred (m := 3) (i := 2) (by norm_num)).1).trans rfl,
+   ((ring_succ_pred (m := 3) (i := 0) (by norm_num)).2.1).trans rfl,
+   ((circ_iterator_steps (max := 3) (zb := 5) (ci := 2) (by norm_num)).1).trans rfl,
+   ((circ_iterator_steps (max := 3) (zb := 5) (ci := 0) (by norm_num)).2).trans rfl⟩
 
 /-- the telescoped coefficients for `γ = (3, 5)`, `K = 2` are `(3, 2, −4)`, summing to 1 -/
 example : (List.range 3).map (aaCoef (fun i => if i = 0 then (3 : ℚ) else 5) 2) = [3, 2, -4] := by
